@@ -1,7 +1,225 @@
-(* C15 — proofs (part 1): map lemmas. *)
+(* C15 — proofs, part 1: maps, the kernel side (exec), "benign" commands never touch foreign rules,
+   the restore input of applyUpdates is benign on every chain Felix does not own. *)
 From Coq Require Import String List NArith ZArith Arith Bool Lia.
 From Verif.C15 Require Import Model Spec.
 Import ListNotations.
 
+(* ------------------------------------------------------------------ maps *)
 Lemma get_put_same : forall {V} (k : string) (v : V) m, get k (put k v m) = Some v.
 Proof. intros. unfold put. simpl. rewrite String.eqb_refl. reflexivity. Qed.
+
+Lemma get_put_other : forall {V} (k k' : string) (v : V) m, k <> k' -> get k (put k' v m) = get k m.
+Proof. intros. unfold put. simpl. destruct (String.eqb k k') eqn:E; auto. apply String.eqb_eq in E. contradiction. Qed.
+
+Lemma get_del_same : forall {V} (k : string) (m : smap V), get k (del k m) = None.
+Proof.
+  induction m as [|[k' v] m IH]; simpl; auto.
+  destruct (String.eqb k k') eqn:E; simpl; auto. rewrite E. auto.
+Qed.
+
+Lemma get_del_other : forall {V} (k k' : string) (m : smap V), k <> k' -> get k (del k' m) = get k m.
+Proof.
+  induction m as [|[k2 v] m IH]; simpl; intros; auto.
+  destruct (String.eqb k' k2) eqn:E; simpl.
+  - apply String.eqb_eq in E. subst. destruct (String.eqb k k2) eqn:E2; auto.
+    apply String.eqb_eq in E2. contradiction.
+  - destruct (String.eqb k k2); auto.
+Qed.
+
+Lemma get_set_chain_same : forall c st (k : kernel), get c (set_chain c st k) = st.
+Proof. intros. destruct st; simpl. apply get_put_same. apply get_del_same. Qed.
+
+Lemma get_set_chain_other : forall c c' st (k : kernel), c <> c' -> get c (set_chain c' st k) = get c k.
+Proof. intros. destruct st; simpl. apply get_put_other; auto. apply get_del_other; auto. Qed.
+
+Lemma mem_In : forall c l, mem c l = true <-> In c l.
+Proof.
+  unfold mem. intros. rewrite existsb_exists. split.
+  - intros [x [H1 H2]]. apply String.eqb_eq in H2. subst. auto.
+  - intros. exists c. split; auto. apply String.eqb_refl.
+Qed.
+
+Lemma In_add_set : forall c x l, In x (add_set c l) <-> x = c \/ In x l.
+Proof.
+  unfold add_set. intros. destruct (mem c l) eqn:E.
+  - apply mem_In in E. split; auto. intros [->|]; auto.
+  - rewrite in_app_iff. simpl. split; intros; intuition.
+Qed.
+
+(* ------------------------------------------------------------------ lines *)
+Lemma line_eqb_eq : forall a b, line_eqb a b = true <-> a = b.
+Proof.
+  unfold line_eqb. intros [h1 i1] [h2 i2]. simpl. rewrite andb_true_iff, !N.eqb_eq. split.
+  - intros [-> ->]. reflexivity.
+  - intros H. inversion H. auto.
+Qed.
+
+Lemma line_eqb_refl : forall a, line_eqb a a = true.
+Proof. intros. apply line_eqb_eq. reflexivity. Qed.
+
+Lemma lines_eqb_eq : forall a b, lines_eqb a b = true <-> a = b.
+Proof.
+  induction a as [|x a IH]; destruct b as [|y b]; simpl; split; intros; try congruence; auto.
+  - apply andb_true_iff in H. destruct H as [H1 H2]. apply line_eqb_eq in H1. apply IH in H2. subst. auto.
+  - inversion H. subst. rewrite line_eqb_refl. simpl. apply IH. auto.
+Qed.
+
+Lemma foreign_app : forall a b, foreign (a ++ b) = foreign a ++ foreign b.
+Proof. intros. unfold foreign. apply filter_app. Qed.
+
+Lemma foreign_remove_all : forall l L, felix_line l = true -> foreign (remove_all l L) = foreign L.
+Proof.
+  intros l L Hl. induction L as [|y L IH]; simpl; auto.
+  destruct (line_eqb l y) eqn:E; simpl.
+  - apply line_eqb_eq in E. subst. rewrite Hl. simpl. auto.
+  - rewrite IH. reflexivity.
+Qed.
+
+Lemma foreign_remove_first : forall l L, felix_line l = true -> foreign (remove_first l L) = foreign L.
+Proof.
+  intros l L Hl. induction L as [|y L IH]; simpl; auto.
+  destruct (line_eqb l y) eqn:E; simpl.
+  - apply line_eqb_eq in E. subst. rewrite Hl. simpl. auto.
+  - rewrite IH. reflexivity.
+Qed.
+
+(* ------------------------------------------------------------------ benign commands *)
+(* what Felix may do to a chain it does not own: delete (by value) / insert / append lines that carry
+   one of its hashes *)
+Definition benign (b : body) : Prop :=
+  match b with
+  | BDelVal (Some l) => felix_line l = true
+  | BDelVal None => True
+  | BInsert l => felix_line l = true
+  | BAppend l => felix_line l = true
+  | _ => False
+  end.
+
+Definition omf (st : option (list line)) : option (list line) := option_map foreign st.
+
+Lemma step_benign : forall dall st b st', benign b -> step_chain dall st b = Some st' -> omf st' = omf st.
+Proof.
+  intros dall st b st' Hb Hs. destruct b; simpl in Hb; try contradiction.
+  - destruct st as [L|]; simpl in Hs; inversion Hs; subst. simpl. rewrite foreign_app. simpl. rewrite Hb. simpl.
+    rewrite app_nil_r. reflexivity.
+  - destruct st as [L|]; simpl in Hs; inversion Hs; subst. simpl. rewrite Hb. reflexivity.
+  - destruct l as [l|]; destruct st as [L|]; simpl in Hs; try discriminate.
+    destruct (existsb (line_eqb l) L); try discriminate. inversion Hs; subst. simpl.
+    destruct dall; [rewrite foreign_remove_all|rewrite foreign_remove_first]; auto.
+Qed.
+
+Definition benign_for (cf : config) (cm : cmd) : Prop := owned cf (fst cm) = true \/ benign (snd cm).
+
+Lemma exec_benign : forall cf dall cs k k',
+  Forall (benign_for cf) cs -> exec dall k cs = Some k' ->
+  forall c, owned cf c = false -> omf (get c k') = omf (get c k).
+Proof.
+  induction cs as [|[c0 b] cs IH]; simpl; intros k k' HF He c Hc.
+  - inversion He. reflexivity.
+  - inversion HF as [|x l Hx HF']; subst.
+    destruct (step_chain dall (get c0 k) b) as [st'|] eqn:Es; try discriminate.
+    rewrite (IH _ _ HF' He c Hc).
+    destruct (String.eqb c c0) eqn:E.
+    + apply String.eqb_eq in E. subst c0. rewrite get_set_chain_same.
+      destruct Hx as [Hx|Hx]; simpl in Hx. congruence.
+      eapply step_benign; eauto.
+    + apply String.eqb_neq in E. rewrite get_set_chain_other; auto.
+Qed.
+
+(* ------------------------------------------------------------------ names of generated commands *)
+Lemma delta_names : forall c prev i nd ds cm, In cm (delta c i nd prev ds) -> fst cm = c.
+Proof.
+  induction prev as [|p prev IH]; simpl; intros.
+  - apply in_map_iff in H. destruct H as [d [<- _]]. reflexivity.
+  - destruct ds as [|d ds].
+    + destruct H as [<-|H]; auto. eapply IH; eauto.
+    + apply in_app_iff in H. destruct H as [H|H]; [|eapply IH; eauto].
+      destruct (N.eqb p (lh d)); simpl in H; intuition. subst. reflexivity.
+Qed.
+
+Lemma pass1_names : forall t c cm, In cm (pass1 t c) -> fst cm = c.
+Proof.
+  unfold pass1. intros. destruct (desired t c); [destruct (get c (t_dp t))|]; simpl in H; intuition; subst; auto.
+Qed.
+Lemma pass2_names : forall t c cm, In cm (pass2 t c) -> fst cm = c.
+Proof. unfold pass2. intros. destruct (desired t c); simpl in H; [eapply delta_names; eauto|contradiction]. Qed.
+Lemma pass4_names : forall t c cm, In cm (pass4 t c) -> fst cm = c.
+Proof. unfold pass4. intros. destruct (desired t c); simpl in H; intuition; subst; auto. Qed.
+
+Lemma del_lines_spec : forall c prev i full r cm,
+  del_lines c i prev full = Some r -> In cm r ->
+  fst cm = c /\ exists fr j ol, full = Some fr /\ nth_error fr j = Some ol /\ snd cm = BDelVal ol.
+Proof.
+  induction prev as [|h prev IH]; simpl; intros i full r cm Hd Hin.
+  - inversion Hd; subst. contradiction.
+  - destruct (N.eqb h 0). eapply IH; eauto.
+    destruct full as [fr|]; try discriminate.
+    destruct (nth_error fr i) as [ol|] eqn:En; try discriminate.
+    destruct (del_lines c (S i) prev (Some fr)) as [r'|] eqn:Er; try discriminate.
+    inversion Hd; subst. destruct Hin as [<-|Hin].
+    + simpl. split; auto. exists fr, i, ol. auto.
+    + eapply IH; eauto.
+Qed.
+
+Lemma pass3_spec : forall cf t c r cm,
+  pass3 cf t c = Some r -> In cm r ->
+  fst cm = c /\
+  ((exists fr j ol, get c (t_full t) = Some fr /\ nth_error fr j = Some ol /\ snd cm = BDelVal ol)
+   \/ (exists ru, In ru (rules_of (t_ins t) c) /\ (snd cm = BInsert (r_line ru) \/ snd cm = BAppend (r_line ru)))
+   \/ (exists ru, In ru (rules_of (t_app t) c) /\ snd cm = BAppend (r_line ru))).
+Proof.
+  unfold pass3. intros cf t c r cm Hp Hin.
+  destruct (ia_in_sync cf t c). { inversion Hp; subst. contradiction. }
+  destruct (del_lines c 0 (oget (get c (t_dp t))) (get c (t_full t))) as [dels|] eqn:Ed; try discriminate.
+  inversion Hp; subst. clear Hp.
+  apply in_app_iff in Hin. destruct Hin as [Hin|Hin].
+  - destruct (del_lines_spec _ _ _ _ _ _ Ed Hin) as [H1 H2]. split; auto.
+  - apply in_app_iff in Hin. destruct Hin as [Hin|Hin].
+    + destruct (cf_append cf).
+      * apply in_map_iff in Hin. destruct Hin as [l [<- Hl]]. unfold lines_of in Hl. apply in_map_iff in Hl.
+        destruct Hl as [ru [<- Hru]]. split; auto. right. left. exists ru. auto.
+      * apply in_map_iff in Hin. destruct Hin as [l [<- Hl]]. apply in_rev in Hl. unfold lines_of in Hl.
+        apply in_map_iff in Hl. destruct Hl as [ru [<- Hru]]. split; auto. right. left. exists ru. auto.
+    + apply in_map_iff in Hin. destruct Hin as [l [<- Hl]]. unfold lines_of in Hl. apply in_map_iff in Hl.
+      destruct Hl as [ru [<- Hru]]. split; auto. right. right. exists ru. auto.
+Qed.
+
+Lemma pass3_all_spec : forall cf t cs r cm,
+  pass3_all cf t cs = Some r -> In cm r -> exists c r', In c cs /\ pass3 cf t c = Some r' /\ In cm r'.
+Proof.
+  induction cs as [|c cs IH]; simpl; intros r cm Hp Hin.
+  - inversion Hp; subst. contradiction.
+  - destruct (pass3 cf t c) as [a|] eqn:Ea; try discriminate.
+    destruct (pass3_all cf t cs) as [b|] eqn:Eb; try discriminate.
+    inversion Hp; subst. apply in_app_iff in Hin. destruct Hin as [Hin|Hin].
+    + exists c, a. auto.
+    + destruct (IH _ _ eq_refl Hin) as [c' [r' [H1 [H2 H3]]]]. exists c', r'. auto.
+Qed.
+
+(* ------------------------------------------------------------------ the "foreign" invariant of a Table *)
+(* Needed so that Felix never emits a command against foreign rules:
+   dirty chains are Felix-owned names; cached full rules and wanted hook rules carry a Felix hash. *)
+Record finv (cf : config) (t : table) : Prop := {
+  fi_dirty : forall c, In c (t_dirty t) -> owned cf c = true;
+  fi_full : forall c fr l, owned cf c = false -> get c (t_full t) = Some fr -> In (Some l) fr -> felix_line l = true;
+  fi_ins : forall c ru, In ru (rules_of (t_ins t) c) -> felix_line (r_line ru) = true;
+  fi_app : forall c ru, In ru (rules_of (t_app t) c) -> felix_line (r_line ru) = true
+}.
+
+Lemma apply_cmds_benign : forall cf t cs, finv cf t -> apply_cmds cf t = Some cs -> Forall (benign_for cf) cs.
+Proof.
+  intros cf t cs HI Ha. unfold apply_cmds in Ha.
+  destruct (pass3_all cf t (t_dirtyIA t)) as [p3|] eqn:E3; try discriminate. inversion Ha; subst. clear Ha.
+  apply Forall_forall. intros cm Hin. unfold benign_for.
+  rewrite !in_app_iff in Hin. destruct Hin as [Hin|[Hin|[Hin|Hin]]].
+  - apply in_flat_map in Hin. destruct Hin as [c [Hc Hin]]. apply pass1_names in Hin. left. rewrite Hin. apply HI; auto.
+  - apply in_flat_map in Hin. destruct Hin as [c [Hc Hin]]. apply pass2_names in Hin. left. rewrite Hin. apply HI; auto.
+  - destruct (pass3_all_spec _ _ _ _ _ E3 Hin) as [c [r' [Hc [Hp Hin']]]].
+    destruct (pass3_spec _ _ _ _ _ Hp Hin') as [Hn Hk].
+    destruct (owned cf (fst cm)) eqn:Eo; auto. right. rewrite Hn in Eo.
+    destruct Hk as [[fr [j [ol [Hf [Hnth Hb]]]]]|[[ru [Hru Hb]]|[ru [Hru Hb]]]].
+    + rewrite Hb. destruct ol as [l|]; simpl; auto. eapply fi_full; eauto. eapply nth_error_In; eauto.
+    + destruct Hb as [Hb|Hb]; rewrite Hb; simpl; eapply fi_ins; eauto.
+    + rewrite Hb; simpl; eapply fi_app; eauto.
+  - apply in_flat_map in Hin. destruct Hin as [c [Hc Hin]]. apply pass4_names in Hin. left. rewrite Hin. apply HI; auto.
+Qed.
